@@ -507,7 +507,7 @@ fn small_fp(g: &mut Gen) -> Fp {
     Fp::from_i64(g.rng.below(7) as i64 - 3)
 }
 
-fn symmetrise<T: Clone>(n: usize, a: &mut [T]) {
+pub fn symmetrise<T: Clone>(n: usize, a: &mut [T]) {
     for i in 0..n {
         for j in 0..i {
             a[j * n + i] = a[i * n + j].clone();
@@ -519,7 +519,7 @@ fn symmetrise<T: Clone>(n: usize, a: &mut [T]) {
 /// at; how to place an exactly-zero pivot).  Answers always come from easy-ml and the Lean model.
 /// Returns the factor computed so far and the index of the failing pivot, if any; `stop_at`
 /// returns the partial sum of that pivot instead.
-fn steer_chol<T>(n: usize, a: &[T], stop_at: Option<usize>) -> (Option<usize>, T)
+pub fn steer_chol<T>(n: usize, a: &[T], stop_at: Option<usize>) -> (Option<usize>, T)
 where
     T: Numeric + Sqrt<Output = T>,
     for<'a> &'a T: NumericRef<T>,
